@@ -11,7 +11,7 @@ ASSUME = sc.ASSUME + [
 ]
 
 MUTATORS = ['set_T', 'set_P', 'set_flow', 'set_flow', 'scale', 'set_phase', 'set_phases', 'mix_from', 'copy_like', 'link_with',
-            'proxy', 'flow_proxy', 'unlink', 'view_write', 'view_set_T', 'split_to', 'separate_out', 'copy_flow', 'reduce_phases', 'restore', 'save', 'reset_thermo', 'reset_thermo']
+            'proxy', 'flow_proxy', 'unlink', 'view_write', 'view_set_T', 'split_to', 'separate_out', 'copy_flow', 'reduce_phases', 'restore', 'save', 'reset_thermo', 'reset_thermo', 'reassign']
 
 MC_TEMPLATE = '''---- MODULE %(name)s ----
 EXTENDS PropCache
@@ -107,6 +107,23 @@ def aba_paths(rng, n):
         ops = [('construct', dict(x=x, k='s', price=0, cf=0)), ('set_flow', dict(x=x, p='l', c=1, v=4)), ('set_flow', dict(x=x, p='l', c=2, v=8))]
         ops += [('read', dict(x=x, prop=p)) for p in props] + [('reset_thermo', dict(x=x, pkg=rng.choice(['P2', 'P3', 'P3'])))] + [('read', dict(x=x, prop=p)) for p in props]
         ops += [('reset_thermo', dict(x=x, pkg='P'))] + [('read', dict(x=x, prop=p)) for p in props]
+        out.append([dict(op=o, a=a) for o, a in ops])
+    for _ in range(n // 6):
+        # the enthalpy / entropy the stream already has is assigned again (the temperature solve runs and must leave nothing behind
+        # on the package), then the state changes and is read - on this stream or on another stream of the same package
+        x, y = rng.sample(['a', 'b'], 2)
+        pkg = rng.choice(['P3', 'P3', 'P'])
+        props = ['H', 'S'] + rng.sample(ds.PROPS, 2)
+        ops = []
+        for n_ in (x, y):
+            ops += [('construct', dict(x=n_, k='s', price=0, cf=0)), ('set_flow', dict(x=n_, p='l', c=1, v=8)), ('set_flow', dict(x=n_, p='l', c=2, v=4)),
+                    ('reset_thermo', dict(x=n_, pkg=pkg)), ('set_phase', dict(x=n_, p='g')), ('set_T', dict(x=n_, T=350))]
+        if rng.random() < 0.5:
+            ops += [('read', dict(x=x, prop=p)) for p in props]
+        ops.append(('reassign', dict(x=x, q=rng.choice(['S', 'S', 'H']))))
+        z = rng.choice([x, y])
+        ops.append(rng.choice([('set_P', dict(x=z, P=200)), ('set_flow', dict(x=z, p='g', c=2, v=12)), ('set_P', dict(x=z, P=50))]))
+        ops += [('read', dict(x=z, prop=p)) for p in props]
         out.append([dict(op=o, a=a) for o, a in ops])
     for _ in range(n):
         x, y = rng.sample(['a', 'b'], 2)
